@@ -53,7 +53,7 @@ class VidAllocator:
         # transposed 1000-row table) a full sweep per allocation would be quadratic, so the sweep
         # is amortised then (and always done at the end of every step by the engine)
         self._since += 1
-        if self._since * 8 >= len(self.by_real) or self.policy != "fresh":
+        if self._since * 8 >= len(self.by_real) or (self.policy != "fresh" and len(self.by_real) < 512):
             self.sweep()
         vid = self._choose(len(obj))
         self.by_real[rid] = [obj, vid]
